@@ -46,7 +46,10 @@ func c10FS() fstest.MapFS {
 		"bad-required.vuego": f(`<p>a</p><template include="comp/card.vuego"></template>`),
 		"bad-layout.vuego":   f("---\nlayout: nolayout\n---\n<p>x</p>"),
 		// elements whose evaluation writes attributes, driven by a condition that differs between programs
-		"toggle.vuego": f(toggleElems("on", "who", "htmlv", "xs")),
+		"toggle.vuego": f(toggleElems("on", "who", "htmlv", "xs") + `<template include="comp/tcard.vuego" :label="who"></template><template include="comp/tcard.vuego" label="L-{{ who }}"><b>{{ who }}</b></template>`),
+		// a component that forwards values to a nested component, outside any loop
+		"comp/tcard.vuego":  f(`<section :data-l="label"><template include="comp/tlabel.vuego" :title="who" cls="c-{{ label }}"><slot>none</slot></template><template include="comp/tlabel.vuego" :title="label" v-if="on"></template></section>`),
+		"comp/tlabel.vuego": f(`<span :class="cls" :title="title">{{ title }}<slot></slot></span>`),
 	}
 }
 
